@@ -183,6 +183,11 @@ impl Inst {
 
     pub fn dir(&self) -> &Path { &self.dir }
 
+    /// Names of the methods registered in the RPC method table (includes the harness's `verif_probe`).
+    pub fn method_names(&self) -> Vec<String> {
+        self.methods.as_ref().map(|m| m.method_names().map(|s| s.to_string()).collect()).unwrap_or_default()
+    }
+
     /// Sends one raw JSON-RPC 2.0 request through the method table (real parameter decoding),
     /// under a panic guard and a wall-clock watchdog.
     pub fn rpc(&mut self, method: &str, params: Value) -> Result<Value, RpcFail> {
